@@ -53,7 +53,7 @@ def get_concurrence_pure(psi:np.ndarray):
             tmp0 = psi.conj().T @ psi
         tmp1 = tmp0.reshape(-1)
         tmp2 = np.vdot(tmp1, tmp1).real #Frobenius norm, np.trace(tmp1 @ tmp1)
-        ret = np.sqrt(2*(1-tmp2))
+        ret = np.sqrt(max(0, 2*(1-tmp2))) #the purity of a product state can round to 1+ulp
     return ret
 
 
